@@ -12,9 +12,10 @@ def main():
         c = dict(C, clampVec=clamp.clampvec(null))
         chk.unit('src/engine/engine_forward.c', 'clampVec', c, 'math', 'fp', prefix='[index=%s]' % ('NULL' if null else 'given'))
     chk.unit('src/engine/engine_support.c', 'mj_actuatorDisabled', dict(C, mj_actuatorDisabled=clamp.DISABLED), 'math', 'fp')
+    chk.unit('src/engine/engine_util_misc.c', 'mju_muscleDynamics', clamp.muscle_contracts(), 'math', 'real')
     chk.assumptions |= {'clampVec with an index array: the indices are distinct and in range (they are the awake-actuator / awake-dof lists)',
                         'limited ranges are ordered and free of NaN (checked by the model compiler)'}
     chk.out_of_reach += ['mj_fwdActuation as a whole (650 lines: gain / bias formulas would be restated; transmission product is a sparse loop)',
                          'slider-crank, site and SO3 transmissions (engine_core_smooth.c mj_transmission)',
-                         'muscle length-gain and dynamics curves (mju_muscleGainLength, mju_muscleDynamics)']
+                         'muscle length-gain / force-velocity curves (mju_muscleGainLength, mju_muscleGain, mju_muscleBias)']
     return chk.finish()
